@@ -455,3 +455,109 @@ def probe_success_hash():
     finally:
         shutil.rmtree(root, ignore_errors=True)
     return bool(bad), "; ".join(bad[:2]) or "probe: canonical_hash equals the hash of the written bytes in all four modes"
+
+
+# ---- success is only reported after the replace ----------------------------------------------------------------------------------
+def probe_same_content() -> tuple[bool, str]:
+    """writes whose new text equals what a text-mode read of the target gives (same bytes, CRLF, lone CR): on success the
+    file's bytes hash to canonical_hash"""
+    from verif.bounded import fsharness as F
+
+    bad = []
+    for scn in F.scenarios():
+        if not ("same" in scn["name"] or "crlf" in scn["name"]):
+            continue
+        r = F.sweep(scn, pairs=False, cores=1)
+        for v in r["violations"]:
+            if v["what"].split(":", 1)[0] in ("exception_escaped", "spurious_hash_mismatch", "cas_absent_target_written"):
+                continue
+            bad.append(f"{scn['name']} {v['mode']} at {v['at']}: {v['what'][:140]}")
+    return bool(bad), "; ".join(bad[:3]) or "same-content and CRLF targets: the file's bytes hash to canonical_hash after every successful call"
+
+
+def ob_success_after_replace(ctx: Ctx) -> Outcome:
+    """WriteTool.execute returns a non-error envelope at exactly two places: under the top-level `if corrections_only:`
+    (dry run) and as the function's last statement, after the write block. No other path can report success without
+    having gone through the temp-file protocol - so `status=success` implies the bytes on disk are the bytes hashed."""
+    from verif.common import shape_verdict
+
+    try:
+        fn = extract.find_def(WRITE, "WriteTool.execute")
+    except ExtractionError as e:
+        return Outcome.undecided("ast-shape", str(e))
+    problems = []
+    rets = [n for n in ast.walk(fn) if isinstance(n, ast.Return)]
+    nested = {id(r) for f in ast.walk(fn) if isinstance(f, (ast.FunctionDef, ast.AsyncFunctionDef, ast.Lambda)) and f is not fn for r in ast.walk(f) if isinstance(r, ast.Return)}
+    plain = [r for r in rets if id(r) not in nested and not (isinstance(r.value, ast.Call) and ast.unparse(r.value.func) in ("self._error_envelope",))]
+    last = fn.body[-1]
+    dry = [st for st in fn.body if isinstance(st, ast.If) and ast.unparse(st.test) == "corrections_only" and not st.orelse]
+    for r in plain:
+        if r is last:
+            continue
+        if any(r in list(ast.walk(d)) for d in dry):
+            continue
+        problems.append(f"L{r.lineno}: `{ast.unparse(r)[:60]}` returns a non-error envelope outside the dry-run branch and before the end of the write block")
+    if not (isinstance(last, ast.Return) and plain and last in plain):
+        problems.append("the function does not end with the success return")
+    if not dry:
+        problems.append("no top-level `if corrections_only:` branch")
+    if problems:
+        return shape_verdict("ast-frame", problems, probe_same_content, len(plain) or 1, {"runner": "props.fsproto:probe_same_content", "args": {}})
+    return Outcome.ok("ast-frame", count=len(plain), returns=[r.lineno for r in plain])
+
+
+# ---- a failed call leaves the tree as it was: the cleanup touches only what the call created --------------------------------------
+NOOP_SCENARIOS = ("wt_missing_parent", "wt_missing_parent_under_empty_dir", "at_missing_parent", "at_missing_parent_under_empty_dir", "wt_readonly", "wt_overwrite_hashbad")
+
+
+def probe_failed_calls_noop(cores: int = 1) -> tuple[bool, str]:
+    from verif.bounded import fsharness as F
+
+    bad, n = [], 0
+    for scn in F.scenarios():
+        if scn["name"] not in NOOP_SCENARIOS:
+            continue
+        r = F.sweep(scn, pairs=False, cores=cores)
+        n += r["evaluations"]
+        for v in r["violations"]:
+            lab = v["what"].split(":", 1)[0]
+            if lab.startswith("noop_") or lab in ("error_target_changed", "tmp_left"):
+                bad.append(f"{scn['name']} {v['mode']} at {v['at']} ({v['errno']}): {v['what'][:140]}")
+    return bool(bad), "; ".join(bad[:3]) or f"{n} fault / kill points over {len(NOOP_SCENARIOS)} scenarios: every call that returned an error left the tree as it was"
+
+
+def ob_cleanup_frame(ctx: Ctx) -> Outcome:
+    """file_ops.remove_created_dirs - the undo of a failed write's mkdir - calls nothing but `rmdir` on the elements of the
+    list it was given (the directories this call created, as computed by missing_parent_dirs before the mkdir): no
+    recursive or upward-pruning removal (os.removedirs, shutil.rmtree), no unlink. Both write paths pass it exactly the list
+    returned by missing_parent_dirs."""
+    from verif.common import shape_verdict
+
+    try:
+        fn = extract.find_def(FOPS, "remove_created_dirs")
+        mp = extract.find_def(FOPS, "missing_parent_dirs")
+    except ExtractionError as e:
+        return shape_verdict("ast-frame", [str(e)], probe_failed_calls_noop, 1, {"runner": "props.fsproto:probe_failed_calls_noop", "args": {}})
+    problems = []
+    param = fn.args.args[0].arg if fn.args.args else None
+    loops = [n for n in ast.walk(fn) if isinstance(n, ast.For)]
+    loopvars = {n.target.id for n in loops if isinstance(n.target, ast.Name) and ast.unparse(n.iter) in (f"reversed({param})", param)}
+    n_calls = 0
+    for c in ast.walk(fn):
+        if not isinstance(c, ast.Call):
+            continue
+        n_calls += 1
+        f = ast.unparse(c.func)
+        ok = f == "reversed" or (isinstance(c.func, ast.Attribute) and c.func.attr == "rmdir" and isinstance(c.func.value, ast.Name) and c.func.value.id in loopvars and not c.args) or (f == "os.rmdir" and len(c.args) == 1 and isinstance(c.args[0], ast.Name) and c.args[0].id in loopvars)
+        if not ok:
+            problems.append(f"remove_created_dirs calls `{ast.unparse(c)[:60]}` (only rmdir of the listed directories is part of the contract)")
+    if not loopvars:
+        problems.append("remove_created_dirs does not iterate over the list it is given")
+    # missing_parent_dirs: collects `parent` while it does not exist - nothing else is appended
+    apps = [c for c in ast.walk(mp) if isinstance(c, ast.Call) and isinstance(c.func, ast.Attribute) and c.func.attr == "append"]
+    wh = [n for n in ast.walk(mp) if isinstance(n, ast.While)]
+    if len(apps) != 1 or len(wh) != 1 or "not parent.exists()" not in ast.unparse(wh[0].test) or ast.unparse(apps[0].args[0]) != "parent":
+        problems.append("missing_parent_dirs does not collect exactly the ancestors that do not exist")
+    if problems:
+        return shape_verdict("ast-frame", problems, probe_failed_calls_noop, max(1, n_calls), {"runner": "props.fsproto:probe_failed_calls_noop", "args": {}})
+    return Outcome.ok("ast-frame", count=max(1, n_calls))
